@@ -93,7 +93,10 @@ class RB:
         h = self.h[name]
         k = len(h.vals)
         self.forms_used.add(form)
-        exp = ("prefix", "idx") if expect == "idx" else (("eq", "refused") if expect == "refused" else None)
+        if isinstance(expect, tuple):
+            exp = expect
+        else:
+            exp = ("prefix", "idx") if expect == "idx" else (("eq", "refused") if expect == "refused" else None)
         n = self.s.add("push %s %s %s" % (name, form, self.r(v)), exp, cmp=cmp or self.idx_cmp,
                        sig=sig or ("push:%s@%s" % (form, self.entry)), shape="push:" + val_shape(self.sh, v))
         if expect != "refused":
@@ -122,6 +125,17 @@ class RB:
         self.h[name].vals = []
         self.h[name].last_pushed = None
         return self.s.add("clear %s" % name, ("eq", "ok"), shape="clear")
+
+    def merge(self, name, srcs):
+        self.h[name] = H(name, self.cat, self.stack)
+        return self.s.add("merge %s %s %s" % (name, self.entry, " ".join(srcs)), ("eq", "ok"), shape="merge%d" % len(srcs))
+
+    def clone(self, name, src):
+        h = H(name, self.cat, self.stack)
+        h.vals = list(self.h[src].vals)
+        h.last_pushed = self.h[src].last_pushed
+        self.h[name] = h
+        return self.s.add("clone %s %s" % (name, src), ("eq", "ok"), shape="clone")
 
     def raw(self, text, exp=None, cmp="exact", sig=None, shape=None):
         return self.s.add(text, exp, cmp, sig, shape)
